@@ -104,7 +104,7 @@ package ast
 //@   ensures  [nil1] n1 == nil ==> same(r, n2)
 //@   ensures  [nil2] n1 != nil && n2 == nil ==> same(r, n1)
 //@   ensures  [list] n1 != nil && n2 != nil ==> typeis[NodeList](r) && parsley.NodeOK(r)
-//@   ensures  [arr;C07] n1 != nil && n2 != nil ==> freshid(parsley.ListArr(r)) || (typeis[NodeList](n1) && parsley.ListArr(r) == parsley.ListArr(n1))
+//@   ensures  [arr;C07] n1 != nil && n2 != nil ==> freshid(parsley.ListArr(r)) || (typeis[NodeList](n1) && parsley.ListArr(r) == parsley.ListArr(n1) && cap(r.(NodeList)) == cap(n1.(NodeList)))
 //@   ensures  [prefix;C07] n1 != nil && n2 != nil && typeis[NodeList](n1) ==> len(r.(NodeList)) >= len(n1.(NodeList)) && forall k int :: 0 <= k && k < len(n1.(NodeList)) ==> same(r.(NodeList)[k], n1.(NodeList)[k])
 //@   ensures  [within] old((n1 != nil ==> within(n1)) && (n2 != nil ==> within(n2))) && r != nil ==> within(r)
 //@   assigns  ite(n1 != nil && n2 != nil && typeis[NodeList](n1), cells(n1.(NodeList), len(n1.(NodeList)), cap(n1.(NodeList))), nothing())
